@@ -129,6 +129,12 @@ def render(sk):
     elif c == "discard-result":
         extra = "func two() => (f64, %s) {\n\tz: %s\n\treturn 1.5, z\n}\n\n" % (wt, wt)
         body = "\ttwo()\n\tprintln(\"ok\")\n"
+    elif c == "empty-loop":
+        # a loop with an empty body and no post statement: its block jumps to itself
+        body = "\tz: %s\n\tn := 0\n\tfor n > 0 {\n\t}\n\t_ = z\n\tprintln(\"ok\")\n" % wt
+    elif c == "empty-loop-call":
+        extra = "global calls: int\n\nfunc more(x: %s) => bool {\n\tcalls++\n\treturn calls < 3\n}\n\n" % wt
+        body = "\tz: %s\n\tfor more(z) {\n\t}\n\tprintln(\"ok\")\n" % wt
     elif c == "eq-self":
         body = "\tx: %s\n\tprintln(x == x)\n" % wt
     else:
@@ -151,7 +157,7 @@ def skeletons(chk, tier):
 
 def run(chk):
     wa = common.build_wa()
-    chk.assume("feature set: the types of WaGen.tla (nine base types under up to %s of pointer, slice, array, map-value and map-key constructors) in its 27 contexts "
+    chk.assume("feature set: the types of WaGen.tla (nine base types under up to %s of pointer, slice, array, map-value and map-key constructors) in its 29 contexts "
                "(declarations with and without initialiser, globals, parameters, results, fields, elements, map values, closures, boxing, dereference, multiple results, "
                "method receivers, deferred-call arguments, range, append, ==); validation by V8's WebAssembly.validate (WABT is not installed)"
                % ("one level" if chk.tier == "quick" else "two levels"))
